@@ -852,7 +852,11 @@ _ENV_CACHE = {}
 def func_env(func):
     key = id(func.node)
     if key not in _ENV_CACHE:
-        _ENV_CACHE[key] = N.copy_env(func.node)
+        try:
+            graph = C.CFG(func.node.body, func)
+        except Exception:                 # pylint: disable=broad-except
+            graph = None
+        _ENV_CACHE[key] = N.copy_env(func.node, graph)
     return _ENV_CACHE[key]
 
 
@@ -1292,3 +1296,37 @@ def placed_first(index, func, expr, param):
             return expr.body.value > expr.orelse.value
     return N.txt(expr) in ('not %s.server' % param,
                            '%s.server is None' % param)
+
+
+def value_at(func, graph, node, expr, depth=0):
+    """What ``expr`` evaluates to at ``node`` in terms of the state when its
+    locals were bound: a Name with one definition D stands for D's value,
+    provided nothing D reads (fields, subscripts) is stored between D and
+    ``node``.  Unlike copy propagation this is about the value used by one
+    statement, so a store performed by ``node`` itself does not matter."""
+    if not isinstance(expr, ast.Name) or depth > 3:
+        return expr
+    dnodes = [n for n in graph.nodes if n.kind == 'stmt' and
+              isinstance(n.ast, ast.Assign) and len(n.ast.targets) == 1 and
+              isinstance(n.ast.targets[0], ast.Name) and
+              n.ast.targets[0].id == expr.id]
+    others = [n for n in graph.nodes if n not in dnodes and
+              expr.id in (N.assigned_targets(n) | N.for_targets(n))]
+    if len(dnodes) != 1 or others:
+        return expr
+    dnode = dnodes[0]
+    val = dnode.ast.value
+    paths = set(N.txt(sub) for sub in ast.walk(val)
+                if isinstance(sub, (ast.Subscript, ast.Attribute)))
+    after_def = C.reach_after(dnode)
+    for cand in graph.nodes:
+        if cand is node or cand.ast is None or cand.kind != 'stmt':
+            continue
+        stores = [sub for sub in ast.walk(cand.ast)
+                  if isinstance(sub, (ast.Subscript, ast.Attribute)) and
+                  isinstance(sub.ctx, (ast.Store, ast.Del)) and
+                  N.txt(sub) in paths]
+        if stores and cand in after_def and node in C.reach_after(cand):
+            return expr
+    return value_at(func, graph, dnode, val, depth + 1) \
+        if isinstance(val, ast.Name) else val
